@@ -108,3 +108,24 @@ func VerifC17_Batches() {
 	vCover("VerifyIndex-returned")
 	vAssert(err != nil, "a damaged chunk was not noticed (batching skipped it?)")
 }
+
+// VerifC17_Cancelled: the "only if" direction under cancellation - whenever the context is
+// cancelled (before the start, between any two batch hand-offs, after the last one), a file
+// with a damaged chunk at any position is never reported as matching.
+func VerifC17_Cancelled() {
+	k := 1 + vChoose("chunks", 3)
+	n := 1 + vChoose("workers", 2)
+	name, _, idx, _ := verifConcreteBlob(k)
+	clean := true // which chunks are damaged, and how, is the solver's choice
+	for c := range idx.Chunks {
+		flip := vU8("flip")
+		idx.Chunks[c].ID[0] ^= flip
+		clean = vAnd(clean, flip == 0)
+	}
+	vAssume(vNot(clean))
+	ctx, cancel := verifCancelLater()
+	defer cancel()
+	err := VerifyIndex(ctx, name, idx, n, NullProgressBar{})
+	vCover("returned")
+	vAssert(err != nil, "a file with a damaged chunk was reported as matching after a cancellation")
+}
